@@ -188,6 +188,470 @@ fn week_hint() {
     vcover!("week_hint.next_iso_year", matches!(hint, Some(h) if h.year() > d.year()));
 }
 
+// ---- MonthdayRange::Month ------------------------------------------------------------------------------
+
+pub(crate) fn any_month() -> Month {
+    let m = nd::u8();
+    nd::assume(1 <= m && m <= 12);
+    Month::try_from(m).unwrap()
+}
+
+fn any_opt_year() -> Option<u16> {
+    let y = nd::u16();
+    if nd::bool() {
+        nd::assume(1900 <= y && y <= 9999);
+        Some(y)
+    } else {
+        None
+    }
+}
+
+//@H props=C01,C04 tier=quick kind=complete cap=600 domain="all (start, end, optional year) x all dates 1900..9999"
+#[cfg_attr(kani, kani::proof)]
+#[cfg_attr(verif_replay, test)]
+fn month_filter() {
+    let (s, e, year) = (any_month(), any_month(), any_opt_year());
+    let r = ds::MonthdayRange::Month { range: s..=e, year };
+    let d = any_date();
+    let got = r.filter(d, &ctx());
+    let in_months = in_wrapping(s as u32, e as u32, d.month());
+    match year {
+        None => vpost!("C01.month.filter_is_month_in_wrapping_range", got == in_months),
+        Some(y) => {
+            // a wrapping month range with a year is not defined by the statement beyond "some month of the range"
+            if s <= e {
+                vpost!("C01.month.filter_with_year_is_that_year_and_month_in_range", got == (in_months && d.year() == y as i32));
+            } else {
+                vpost!("C01.month.filter_with_year_wrapping_implies_month_in_range", !got || in_months);
+            }
+        }
+    }
+    vcover!("month_filter.wrapping_hit", s > e && got);
+    vcover!("month_filter.year_mismatch", year.is_some() && !got && in_months);
+}
+
+//@H props=C01,C04 tier=quick kind=complete cap=300 domain="all 12 months"
+#[cfg_attr(kani, kani::proof)]
+#[cfg_attr(verif_replay, test)]
+fn month_next_prev_cyclic() {
+    let m = any_month();
+    vpost!("C01.month.next_is_cyclic_successor", m.next() as u8 == (m as u8) % 12 + 1);
+    vpost!("C01.month.prev_is_cyclic_predecessor", m.prev() as u8 == (m as u8 + 10) % 12 + 1);
+    vpost!("C01.month.next_prev_inverse", m.next().prev() == m && m.prev().next() == m);
+    vpost!("C01.month.from_date_is_calendar_month", {
+        let d = any_date();
+        Month::from_date(d) as u32 == d.month()
+    });
+    vcover!("month_next.december", m == Month::December);
+}
+
+//@H props=C02,C08,C04 tier=quick kind=complete cap=1200 domain="year-less month ranges: all (start, end) x all dates x all intermediate dates"
+#[cfg_attr(kani, kani::proof)]
+#[cfg_attr(verif_replay, test)]
+fn month_hint_no_year() {
+    let (s, e) = (any_month(), any_month());
+    let r = ds::MonthdayRange::Month { range: s..=e, year: None };
+    let d = any_date();
+    let between = any_date();
+    let c = ctx();
+    let hint = r.next_change_hint(d, &c);
+    if let Some(h) = hint {
+        vpost!(
+            "C02.month.hint_no_change_before_hint",
+            h > d && !(d < between && between < h && r.filter(between, &c) != r.filter(d, &c))
+        );
+        vpost!("C08.month.hint_within_supported_range_or_dropped", h <= date_end() || h.year() == 10000);
+    }
+    vcover!("month_hint.inside", hint.is_some() && r.filter(d, &c));
+    vcover!("month_hint.outside", hint.is_some() && !r.filter(d, &c));
+    vcover!("month_hint.whole_year", hint == Some(date_end()));
+}
+
+fn month_hint_with_year_body(wrapping: bool) {
+    let (s, e) = (any_month(), any_month());
+    let y = nd::u16();
+    nd::assume(1900 <= y && y <= 9999);
+    nd::assume(wrapping == (s > e));
+    let r = ds::MonthdayRange::Month { range: s..=e, year: Some(y) };
+    let d = any_date();
+    let between = any_date();
+    let c = ctx();
+    let hint = r.next_change_hint(d, &c);
+    if let Some(h) = hint {
+        vpost!(
+            "C02.month_with_year.hint_no_change_before_hint",
+            h > d && !(d < between && between < h && r.filter(between, &c) != r.filter(d, &c))
+        );
+        vpost!("C08.month_with_year.hint_within_supported_range", h <= date_end());
+    }
+    vcover!("month_hint_year.inside", hint.is_some() && r.filter(d, &c));
+    vcover!("month_hint_year.before", hint.is_some() && !r.filter(d, &c) && d.year() < y as i32);
+    vcover!("month_hint_year.december", e == Month::December || wrapping);
+}
+
+//@H props=C02,C08,C04 tier=quick kind=complete cap=1200 domain="month ranges with a year, start <= end: all (start, end, year) x all dates x all intermediate dates"
+#[cfg_attr(kani, kani::proof)]
+#[cfg_attr(kani, kani::unwind(4))]
+#[cfg_attr(verif_replay, test)]
+fn month_hint_with_year() {
+    month_hint_with_year_body(false)
+}
+
+//@H props=C02 tier=quick kind=complete cap=1200 finding=KF-C02-month-year-wrapping domain="month ranges with a year, start > end"
+#[cfg_attr(kani, kani::proof)]
+#[cfg_attr(kani, kani::unwind(4))]
+#[cfg_attr(verif_replay, test)]
+fn month_hint_with_year_wrapping_known_finding() {
+    month_hint_with_year_body(true)
+}
+
+// ---- leaf date kernels -----------------------------------------------------------------------------------
+
+fn is_leap(y: i32) -> bool {
+    (y % 4 == 0 && y % 100 != 0) || y % 400 == 0
+}
+
+pub(crate) fn days_in_month(y: i32, m: u32) -> u32 {
+    match m {
+        4 | 6 | 9 | 11 => 30,
+        2 => if is_leap(y) { 29 } else { 28 },
+        _ => 31,
+    }
+}
+
+//@H props=C01,C04 tier=quick kind=complete cap=900 domain="all dates 1900..9999"
+#[cfg_attr(kani, kani::proof)]
+#[cfg_attr(verif_replay, test)]
+fn count_days_in_month_spec() {
+    let d = any_date();
+    let got = count_days_in_month(d);
+    vpost!("C01.count_days_in_month.is_gregorian_month_length", got as u32 == days_in_month(d.year(), d.month()));
+    vcover!("count_days.feb_leap_century", d.year() % 400 == 0 && d.month() == 2);
+    vcover!("count_days.feb_nonleap_century", d.year() % 100 == 0 && d.year() % 400 != 0 && d.month() == 2);
+    vcover!("count_days.december_9999", d.year() == 9999 && d.month() == 12);
+}
+
+/// Easter Sunday by Lichtenberg's form of the Gauss algorithm: (month, day).  Independent of the
+/// Meeus/Jones/Butcher expression sequence used by the code.
+fn easter_gauss(y: i32) -> (u32, u32) {
+    let k = y / 100;
+    let m = 15 + (3 * k + 3) / 4 - (8 * k + 13) / 25;
+    let s = 2 - (3 * k + 3) / 4;
+    let a = y % 19;
+    let d = (19 * a + m) % 30;
+    let r = (d + a / 11) / 29;
+    let og = 21 + d - r;
+    let sz = 7 - (y + y / 4 + s) % 7;
+    let oe = 7 - (og - sz) % 7;
+    let os = og + oe;
+    if os > 31 { (4, (os - 31) as u32) } else { (3, os as u32) }
+}
+
+//@H props=C01,C04 tier=quick kind=complete cap=1500 domain="all years 1900..=10010 against an independent computus; every i32 year for absence of panic"
+#[cfg_attr(kani, kani::proof)]
+#[cfg_attr(verif_replay, test)]
+fn easter_spec() {
+    let y = nd::i32();
+    let any_year = nd::i32();
+    let _ = easter(any_year); // no overflow / expect panic for any i32
+    nd::assume(1899 <= y && y <= 10010);
+    let got = easter(y);
+    let (m, d) = easter_gauss(y);
+    vpost!("C01.easter.equals_independent_computus", got == NaiveDate::from_ymd_opt(y, m, d) && got.is_some());
+    if let Some(e) = got {
+        vpost!("C01.easter.is_a_sunday_between_mar22_and_apr25", e.weekday() == Weekday::Sun
+            && e >= NaiveDate::from_ymd_opt(y, 3, 22).unwrap() && e <= NaiveDate::from_ymd_opt(y, 4, 25).unwrap());
+    }
+    vcover!("easter.april", m == 4);
+    vcover!("easter.march", m == 3);
+}
+
+//@H props=C01,C04,C08 tier=quick kind=complete cap=1500 domain="years 1899..=10010, all months, days 1..=31"
+#[cfg_attr(kani, kani::proof)]
+#[cfg_attr(kani, kani::unwind(6))]
+#[cfg_attr(verif_replay, test)]
+fn valid_ymd_clamps() {
+    let (y, m, day) = (nd::i32(), nd::u32(), nd::u32());
+    nd::assume(1899 <= y && y <= 10010 && 1 <= m && m <= 12 && 1 <= day && day <= 31);
+    let dim = days_in_month(y, m);
+    let before = valid_ymd_before(y, m, day);
+    let after = valid_ymd_after(y, m, day);
+    let last = NaiveDate::from_ymd_opt(y, m, dim).unwrap();
+    if day <= dim {
+        let exact = NaiveDate::from_ymd_opt(y, m, day).unwrap();
+        vpost!("C01.valid_ymd.existing_day_is_itself", before == exact && after == exact);
+    } else {
+        vpost!("C01.valid_ymd_before.missing_day_clamps_to_last_day_of_month", before == last);
+        vpost!("C01.valid_ymd_after.missing_day_clamps_to_first_day_after_month", after == last.succ_opt().unwrap());
+    }
+    vcover!("valid_ymd.feb30_leap", m == 2 && day == 30 && dim == 29);
+    vcover!("valid_ymd.apr31", m == 4 && day == 31);
+}
+
+// ---- WeekDayRange::Fixed --------------------------------------------------------------------------------------
+
+fn any_weekday() -> Weekday {
+    let w = nd::u8();
+    nd::assume(w < 7);
+    Weekday::try_from(w).unwrap()
+}
+
+/// offsets for which `date - offset` stays representable for every supported date (chrono covers +-262 143 years)
+const MAX_DAY_OFFSET: i64 = 90_000_000;
+
+fn weekday_fixed_body(offset: i64) {
+    let (s, e) = (any_weekday(), any_weekday());
+    let nth_from_start = [nd::bool(), nd::bool(), nd::bool(), nd::bool(), nd::bool()];
+    let nth_from_end = [nd::bool(), nd::bool(), nd::bool(), nd::bool(), nd::bool()];
+    let r = ds::WeekDayRange::Fixed { range: s..=e, offset, nth_from_start, nth_from_end };
+    let d = any_date();
+    let got = r.filter(d, &ctx());
+    // spec: the day `offset` days earlier is a weekday of the (wrapping) range and sits at a selected
+    // position of its month, counted from the start or from the end
+    let dd = d - Duration::days(offset);
+    let wd = dd.weekday().num_days_from_monday();
+    let k_start = ((dd.day() - 1) / 7) as usize;
+    let k_end = ((days_in_month(dd.year(), dd.month()) - dd.day()) / 7) as usize;
+    let spec = in_wrapping(s.num_days_from_monday(), e.num_days_from_monday(), wd)
+        && (nth_from_start[k_start] || nth_from_end[k_end]);
+    vpost!("C01.weekday.filter_is_weekday_in_range_at_selected_nth_position", got == spec);
+    vpost!("C02.weekday.fixed_has_no_hint", r.next_change_hint(d, &ctx()).is_none());
+    vcover!("weekday.wrapping_hit", s.num_days_from_monday() > e.num_days_from_monday() && got);
+    vcover!("weekday.fifth_from_start", got && k_start == 4 && !nth_from_end[k_end]);
+    vcover!("weekday.last_of_month", got && k_end == 0 && !nth_from_start[k_start]);
+    vcover!("weekday.miss_by_position", !got && in_wrapping(s.num_days_from_monday(), e.num_days_from_monday(), wd));
+}
+
+//@H props=C01,C02,C04 tier=quick kind=complete cap=1500 domain="offset 0: all weekday ranges x all nth masks x all dates 1900..9999"
+#[cfg_attr(kani, kani::proof)]
+#[cfg_attr(kani, kani::unwind(3))]
+#[cfg_attr(verif_replay, test)]
+fn weekday_fixed_filter_no_offset() {
+    weekday_fixed_body(0)
+}
+
+//@H props=C01,C04 tier=thorough kind=bounded cap=1500 mem=medium bound="|day offset| <= 2" domain="all weekday ranges x all nth masks x all dates 1900..9999"
+#[cfg_attr(kani, kani::proof)]
+#[cfg_attr(kani, kani::unwind(3))]
+#[cfg_attr(verif_replay, test)]
+fn weekday_fixed_filter_with_offset() {
+    let offset = nd::i64();
+    nd::assume(-2 <= offset && offset <= 2);
+    weekday_fixed_body(offset)
+}
+
+//@H props=C04 tier=quick kind=complete cap=900 finding=KF-C04-huge-day-offset domain="|day offset| > 90 000 000"
+#[cfg_attr(kani, kani::proof)]
+#[cfg_attr(kani, kani::unwind(3))]
+#[cfg_attr(verif_replay, test)]
+fn weekday_fixed_filter_huge_offset_known_finding() {
+    let offset = nd::i64();
+    nd::assume(offset < -MAX_DAY_OFFSET || offset > MAX_DAY_OFFSET);
+    let r = ds::WeekDayRange::Fixed { range: Weekday::Mon..=Weekday::Mon, offset, nth_from_start: [true; 5], nth_from_end: [true; 5] };
+    let d = any_date();
+    let _ = r.filter(d, &ctx());
+    vpost!("C04.weekday.filter_returns_for_every_offset", true);
+}
+
+// ---- WeekDayRange::Holiday -------------------------------------------------------------------------------------
+//
+// The calendars are abstract here: `CompactCalendar::{contains, first_after}` are replaced by *contract
+// models* over a harness-owned table of two symbolic holidays per calendar - `contains(d)` is membership
+// and `first_after(d)` the least member strictly after `d`, i.e. exactly the contracts proved for the real
+// calendar under C15.  Which table answers is decided by the identity of the calendar object, so reading the
+// wrong calendar of the context is detected.
+
+static mut CAL_PUBLIC: *const compact_calendar::CompactCalendar = core::ptr::null();
+static mut TABLE_PUBLIC: [Option<NaiveDate>; 2] = [None, None];
+static mut TABLE_SCHOOL: [Option<NaiveDate>; 2] = [None, None];
+
+fn table_of(c: &compact_calendar::CompactCalendar) -> [Option<NaiveDate>; 2] {
+    unsafe {
+        if core::ptr::eq(c, CAL_PUBLIC) { TABLE_PUBLIC } else { TABLE_SCHOOL }
+    }
+}
+
+pub(crate) fn calendar_contains_model(c: &compact_calendar::CompactCalendar, d: NaiveDate) -> bool {
+    let t = table_of(c);
+    t[0] == Some(d) || t[1] == Some(d)
+}
+
+pub(crate) fn calendar_first_after_model(c: &compact_calendar::CompactCalendar, d: NaiveDate) -> Option<NaiveDate> {
+    let t = table_of(c);
+    let a = t[0].filter(|x| *x > d);
+    let b = t[1].filter(|x| *x > d);
+    match (a, b) {
+        (Some(x), Some(y)) => Some(if x < y { x } else { y }),
+        (x, y) => x.or(y),
+    }
+}
+
+fn any_opt_date() -> Option<NaiveDate> {
+    let d = any_date();
+    if nd::bool() { Some(d) } else { None }
+}
+
+fn holiday_ctx() -> Context {
+    let c = Context::default()
+        .with_holidays(crate::context::ContextHolidays::new(Default::default(), Default::default()));
+    unsafe {
+        CAL_PUBLIC = c.holidays.get_public() as *const _;
+        TABLE_PUBLIC = [any_opt_date(), any_opt_date()];
+        TABLE_SCHOOL = [any_opt_date(), any_opt_date()];
+    }
+    c
+}
+
+fn any_holiday_kind() -> HolidayKind {
+    if nd::bool() { HolidayKind::Public } else { HolidayKind::School }
+}
+
+fn in_table(t: [Option<NaiveDate>; 2], d: NaiveDate) -> bool {
+    t[0] == Some(d) || t[1] == Some(d)
+}
+
+//@H props=C01,C04 tier=quick kind=bounded cap=1500 bound="|day offset| <= 400; calendars abstracted by 2 symbolic holidays each" domain="both kinds x all dates 1900..9999"
+#[cfg_attr(kani, kani::proof)]
+#[cfg_attr(kani, kani::unwind(3))]
+#[cfg_attr(kani, kani::stub(compact_calendar::CompactCalendar::contains, calendar_contains_model))]
+#[cfg_attr(kani, kani::stub(compact_calendar::CompactCalendar::first_after, calendar_first_after_model))]
+#[cfg_attr(verif_replay, test)]
+fn holiday_filter() {
+    let c = holiday_ctx();
+    let kind = any_holiday_kind();
+    let offset = nd::i64();
+    nd::assume(-400 <= offset && offset <= 400);
+    let r = ds::WeekDayRange::Holiday { kind, offset };
+    let d = any_date();
+    let got = r.filter(d, &c);
+    let table = unsafe { if kind == HolidayKind::Public { TABLE_PUBLIC } else { TABLE_SCHOOL } };
+    vpost!(
+        "C01.holiday.filter_is_membership_of_the_shifted_day_in_the_calendar_of_that_kind",
+        got == in_table(table, d - Duration::days(offset))
+    );
+    vcover!("holiday_filter.hit_with_offset", got && offset != 0);
+    vcover!("holiday_filter.other_calendar_has_it", !got && unsafe { in_table(if kind == HolidayKind::Public { TABLE_SCHOOL } else { TABLE_PUBLIC }, d - Duration::days(offset)) });
+}
+
+//@H props=C02,C08,C04 tier=quick kind=bounded cap=1800 bound="|day offset| <= 1; calendars abstracted by 2 symbolic holidays each" domain="both kinds x all dates x all intermediate dates"
+#[cfg_attr(kani, kani::proof)]
+#[cfg_attr(kani, kani::unwind(3))]
+#[cfg_attr(kani, kani::stub(compact_calendar::CompactCalendar::contains, calendar_contains_model))]
+#[cfg_attr(kani, kani::stub(compact_calendar::CompactCalendar::first_after, calendar_first_after_model))]
+#[cfg_attr(verif_replay, test)]
+fn holiday_hint() {
+    let c = holiday_ctx();
+    let kind = any_holiday_kind();
+    let offset = nd::i64();
+    nd::assume(-1 <= offset && offset <= 1);
+    let r = ds::WeekDayRange::Holiday { kind, offset };
+    let d = any_date();
+    let between = any_date();
+    let hint = r.next_change_hint(d, &c);
+    if let Some(h) = hint {
+        vpost!("C02.holiday.hint_is_after_the_date", h > d);
+        vpost!(
+            "C02.holiday.hint_no_change_before_hint",
+            !(d < between && between < h && r.filter(between, &c) != r.filter(d, &c))
+        );
+        vpost!("C08.holiday.hint_within_supported_range_or_offset_beyond", h <= date_end() + Duration::days(1));
+    }
+    vpost!("C02.holiday.hint_exists_inside_supported_range", hint.is_some());
+    vcover!("holiday_hint.on_holiday", r.filter(d, &c));
+    vcover!("holiday_hint.eve_of_holiday", matches!(hint, Some(h) if h == d.succ_opt().unwrap() && !r.filter(d, &c)));
+    vcover!("holiday_hint.no_more_holidays", hint == Some(date_end()));
+    vcover!("holiday_hint.positive_offset_next", offset > 0 && matches!(hint, Some(h) if h > d + Duration::days(2)) && hint != Some(date_end()));
+    vcover!("holiday_hint.negative_offset", offset < 0 && r.filter(d, &c));
+}
+
+// ---- lists of selectors and the DaySelector conjunction -------------------------------------------------------------
+
+//@H props=C01,C02,C04 tier=quick kind=bounded cap=1500 bound="lists of 0, 1 and 2 year ranges (step 1)" domain="all range bounds x all dates"
+#[cfg_attr(kani, kani::proof)]
+#[cfg_attr(kani, kani::unwind(4))]
+#[cfg_attr(verif_replay, test)]
+fn selector_list_is_disjunction() {
+    let (a, b) = (any_year_range(), any_year_range());
+    nd::assume(a.step == 1 && b.step == 1);
+    let d = any_date();
+    let c = ctx();
+    let (fa, fb) = (a.filter(d, &c), b.filter(d, &c));
+    let (ha, hb) = (a.next_change_hint(d, &c), b.next_change_hint(d, &c));
+    let empty: [YearRange; 0] = [];
+    let one = [a.clone()];
+    let two = [a, b];
+    vpost!("C01.selector_list.empty_list_matches_every_day", empty.filter(d, &c));
+    vpost!("C01.selector_list.one_element_is_that_element", one.filter(d, &c) == fa);
+    vpost!("C01.selector_list.is_disjunction_of_its_elements", two.filter(d, &c) == (fa || fb));
+    vpost!("C02.selector_list.empty_list_never_changes", empty.next_change_hint(d, &c) == Some(date_end()));
+    // min over Option<NaiveDate>: None (no hint) is the smallest, i.e. one missing hint makes the list's hint missing
+    let expect = match (ha, hb) {
+        (Some(x), Some(y)) => Some(if x < y { x } else { y }),
+        _ => None,
+    };
+    vpost!("C02.selector_list.hint_is_the_earliest_element_hint_none_if_any_is_none", two.next_change_hint(d, &c) == expect);
+    vcover!("selector_list.only_second_matches", !fa && fb);
+    vcover!("selector_list.one_hint_missing", ha.is_none() != hb.is_none());
+}
+
+//@H props=C01,C04 tier=quick kind=bounded cap=1800 mem=medium bound="one selector per dimension (year, month, week, weekday), each list possibly empty" domain="all fields x all dates"
+#[cfg_attr(kani, kani::proof)]
+#[cfg_attr(kani, kani::unwind(4))]
+#[cfg_attr(verif_replay, test)]
+fn day_selector_is_conjunction_of_dimensions() {
+    let y = any_year_range();
+    nd::assume(y.step == 1);
+    let m = ds::MonthdayRange::Month { range: any_month()..=any_month(), year: None };
+    let w = any_week_range();
+    nd::assume(w.step == 1);
+    let wd = ds::WeekDayRange::Fixed { range: any_weekday()..=any_weekday(), offset: 0, nth_from_start: [true; 5], nth_from_end: [true; 5] };
+    let (uy, um, uw, uwd) = (nd::bool(), nd::bool(), nd::bool(), nd::bool());
+    let d = any_date();
+    let c = ctx();
+    let (fy, fm, fw, fwd) = (y.filter(d, &c), m.filter(d, &c), w.filter(d, &c), wd.filter(d, &c));
+    let expect = (!uy || fy) && (!um || fm) && (!uw || fw) && (!uwd || fwd);
+    let sel = ds::DaySelector {
+        year: if uy { vec![y] } else { vec![] },
+        monthday: if um { vec![m] } else { vec![] },
+        week: if uw { vec![w] } else { vec![] },
+        weekday: if uwd { vec![wd] } else { vec![] },
+    };
+    vpost!("C01.day_selector.rule_applies_iff_all_its_selector_dimensions_match", sel.filter(d, &c) == expect);
+    vpost!("C01.day_selector.is_empty_iff_no_dimension_given", sel.is_empty() == (!uy && !um && !uw && !uwd));
+    vcover!("day_selector.all_dimensions_match", uy && um && uw && uwd && expect);
+    vcover!("day_selector.only_weekday_fails", uy && um && uw && uwd && !expect && fy && fm && fw);
+    vcover!("day_selector.empty", !uy && !um && !uw && !uwd);
+}
+
+//@H props=C02,C08,C04 tier=quick kind=bounded cap=1800 mem=medium bound="a year range (step 1) and a year-less month range" domain="all fields x all dates"
+#[cfg_attr(kani, kani::proof)]
+#[cfg_attr(kani, kani::unwind(6))]
+#[cfg_attr(verif_replay, test)]
+fn day_selector_hint_is_earliest_dimension_hint() {
+    let y = any_year_range();
+    nd::assume(y.step == 1);
+    let m = ds::MonthdayRange::Month { range: any_month()..=any_month(), year: None };
+    let (uy, um) = (nd::bool(), nd::bool());
+    let d = any_date();
+    let c = ctx();
+    let hy = if uy { y.next_change_hint(d, &c) } else { Some(date_end()) };
+    let hm = if um { m.next_change_hint(d, &c) } else { Some(date_end()) };
+    let sel = ds::DaySelector {
+        year: if uy { vec![y] } else { vec![] },
+        monthday: if um { vec![m] } else { vec![] },
+        week: vec![],
+        weekday: vec![],
+    };
+    let expect = match (hy, hm) {
+        (Some(a), Some(b)) => Some(if a < b { a } else { b }),
+        _ => None,
+    };
+    vpost!("C02.day_selector.hint_is_the_earliest_dimension_hint_none_if_any_is_none", sel.next_change_hint(d, &c) == expect);
+    vpost!("C02.day_selector.without_selectors_never_changes", uy || um || sel.next_change_hint(d, &c) == Some(date_end()));
+    vcover!("day_selector_hint.month_first", uy && um && matches!((hy, hm), (Some(a), Some(b)) if b < a));
+    vcover!("day_selector_hint.none", uy && expect.is_none());
+}
+
 //@H props=ENGINE tier=quick kind=canary cap=300 expect=fail
 #[cfg_attr(kani, kani::proof)]
 #[cfg_attr(verif_replay, test)]
